@@ -31,6 +31,7 @@ from ..errors import InvalidRangeName
 from ..cell import Cell, RangesAssembler, Ref, CellWrapper, InvRangesAssembler
 from ..tokens.operand import XlError, _re_sheet_id, _re_build_id
 from ..functions.text import HexValue
+from ..functions import COMPILING
 
 log = logging.getLogger(__name__)
 BOOK = sh.Token('Book')
@@ -591,6 +592,20 @@ class ExcelModel:
 
         res = dsp()
 
+        # Volatile cells (e.g., NOW, RAND) and their dependents are not frozen.
+        stack = [
+            k for k, d in dsp.function_nodes.items()
+            if _is_volatile(d['function'])
+        ]
+        if stack:
+            succ, volatile = dsp.dmap.succ, set()
+            while stack:
+                for k in succ[stack.pop()]:
+                    if k not in volatile:
+                        volatile.add(k)
+                        stack.append(k)
+            res = {k: v for k, v in res.items() if k not in volatile}
+
         dsp = dsp.get_sub_dsp_from_workflow(
             outputs, graph=dsp.dmap, reverse=True, blockers=res,
             wildcard=False
@@ -650,6 +665,11 @@ class ExcelModel:
                 dmap.add_edge(CIRCULAR, k)
 
         return self
+
+
+def _is_volatile(func):
+    dsp = getattr(getattr(func, 'func', None), 'dsp', None)
+    return dsp is not None and COMPILING in dsp.nodes
 
 
 def _check_range_all_cycles(nodes, active_nodes, j):
